@@ -586,9 +586,6 @@ func (h *httpServerHandler) handleGet(ctx context.Context, w http.ResponseWriter
 	// Set SSE response headers
 	sseutil.SetStandardHeaders(w)
 	w.Header().Set(httputil.SessionIDHeader, session.GetID())
-	w.WriteHeader(http.StatusOK)
-	flusher.Flush()
-	verifEvent("get.flushed", r)
 
 	// Create context, for canceling connection
 	connCtx, cancelConn := context.WithCancel(ctx)
@@ -612,9 +609,16 @@ func (h *httpServerHandler) handleGet(ctx context.Context, w http.ResponseWriter
 		lastEventID:  lastEventID,
 		sseResponder: newSSEResponder(),
 	}
+	// Register the stream before its response headers go out, so that a send issued as soon as
+	// the client has seen the headers finds it; hold the write lock so nothing precedes the headers.
+	conn.writeLock.Lock()
 	h.getSSEConnections[session.GetID()] = conn
 	verifEvent("get.registered", r)
 	h.getSSEConnectionsLock.Unlock()
+	w.WriteHeader(http.StatusOK)
+	flusher.Flush()
+	conn.writeLock.Unlock()
+	verifEvent("get.flushed", r)
 
 	// Record connection information
 	h.logger.Infof("Established GET SSE connection, session ID: %s", session.GetID())
